@@ -10,7 +10,7 @@ here = os.path.dirname(os.path.dirname(os.path.abspath(__file__)))
 dst = os.path.join(here, "seeded", sid)
 os.makedirs(dst, exist_ok=True)
 for f in os.listdir(src):
-    if f.startswith(("patch.diff", "demo", "README")):
+    if os.path.isfile(os.path.join(src, f)) and not f.endswith((".log", ".exe", ".o", ".out")):
         shutil.copy(os.path.join(src, f), dst)
 conf = subprocess.run([os.path.join(here, "tools/seedconfirm.sh"), src], capture_output=True, text=True).stdout
 conf = "\n".join(l for l in conf.split("\n") if "WARNING" not in l)
